@@ -1,6 +1,6 @@
 (* Suites.v -- dispatcher over the correspondence suites.  Everything here is
    executable; it is extracted to OCaml and also evaluated inside Coq. *)
-From CoapV Require Import Base Suite01 Suite05 Suite07.
+From CoapV Require Import Base Suite01 Suite05 Suite06 Suite07.
 
 Definition run (suite : N) (s : list N) : list N :=
   match suite with
@@ -8,6 +8,7 @@ Definition run (suite : N) (s : list N) : list N :=
   | 20 | 30 => run20 s
   | 40 => run40 s
   | 50 => run50 s
+  | 60 => run60 s
   | 70 => run07 s
   | _ => [998]
   end.
@@ -20,6 +21,7 @@ Definition verdict (suite : N) (s out : list N) : bool :=
   | 30 => verdict30 s out
   | 40 => verdict40 s out
   | 50 => verdict50 s out
+  | 60 => verdict60 s out
   | 70 => verdict07 s out
   | _ => false
   end.
@@ -31,6 +33,7 @@ Definition classify (suite : N) (s out : list N) : N :=
   | 20 | 30 => classify20 s
   | 40 => classify40 s
   | 50 => classify50 s
+  | 60 => classify60 s
   | 70 => classify07 s
   | _ => 0
   end.
